@@ -78,9 +78,16 @@ func (bitrot) Generate(r *core.PRNG, tier string, idx int64) any {
 	if idx%3 == 2 {
 		sc := &BitrotScenario{Mode: "muxed", Period: 1}
 		ns := r.Range(1, 4)
+		huge := ns >= 2 && r.Chance(1, 10) // the last stream's descriptor loop exceeds its 10-bit length: tables are refused until it is removed
 		for i := 0; i < ns; i++ {
 			op := MuxOp{Op: "add", H: -1, PID: uint16(0x100 + i), Type: streamTypes[r.Intn(len(streamTypes))]}
 			nd := r.Pick(1, 3, 2, 1)
+			if huge && i == ns-1 {
+				for k := 0; k < 5; k++ {
+					op.Descs = append(op.Descs, DescSpec{Kind: "user", Tag: uint8(r.Range(0x80, 0xfe)), Data: r.Bytes(r.Range(215, 253))})
+				}
+				nd = 0
+			}
 			for k := 0; k < nd; k++ {
 				if r.Chance(3, 4) {
 					d := DescSpec{Kind: "typed:" + TypedDescNames[r.Intn(len(TypedDescNames))], Seed: r.Uint64(), N: r.Intn(4)}
@@ -102,7 +109,7 @@ func (bitrot) Generate(r *core.PRNG, tier string, idx int64) any {
 			}
 			sc.Ops = append(sc.Ops, MuxOp{Op: "tables", H: -1})
 		}
-		if r.Bool() {
+		if r.Bool() || huge {
 			// the PMT shrinks: the last stream added goes (stream 0 carries the PCR), or the PCR
 			// moves first
 			last := -1
